@@ -6,7 +6,7 @@ from .. import AnalysisError, tables
 from ..pat import find_expr, find_stmt, match_expr, match_stmt
 from ..canon import canon, canon_node
 from ..pm import src
-from ..q import FA, call_name, cfg_of, guard_facts, is_self_attr, walk_no_nested
+from ..q import FA, call_name, cfg_of, guard_facts, is_self_attr, nfact, returns_under, walk_no_nested
 from ..resolve import resolver
 from ..rules import sig
 from ..rules.selfattrs import SelfAttrs
@@ -374,7 +374,8 @@ def run(ctx):
         ctx.ob("R-SIB", "C07.5", inv, "the offset subtracted before rescaling is added back after the inverse rescaling", len(offf) == 1 and len(offi) == 1, "")
     comb = prog.cls(tables.COMBINED)
     tp, fp_ = comb.methods["to_prime_order"], comb.methods["from_prime_order"]
-    okc = len(find_stmt("if self.reverse_order:\n    return reversed(self.order)\nelse:\n    return self.order", tp.node)) == 1 and len(find_stmt("if self.reverse_order:\n    return self.order\nelse:\n    return reversed(self.order)", fp_.node)) == 1
+    T_, F_ = {nfact("self.reverse_order", True)}, {nfact("self.reverse_order", False)}
+    okc = returns_under(tp) == {"reversed(self.order)": [T_], "self.order": [F_]} and returns_under(fp_) == {"self.order": [T_], "reversed(self.order)": [F_]}
     ctx.ob("R-SIB", "C07.5", comb.qual, "CombinedReparameterisation: the from-prime order is the reverse of the to-prime order in both settings of reverse_order", okc, "")
     for m, order in (("reparameterise", "self.to_prime_order"), ("inverse_reparameterise", "self.from_prime_order")):
         f = comb.methods[m]
